@@ -16,6 +16,9 @@ package session
 //@ ghost everLogged bool
 //@ ghost sendFailed bool
 //@ ghost timersStarted bool
+// timersArmed: Session.start has created the timers, which happens only while an
+// acceptable Logon is being processed (the timer goroutines exist from then on)
+//@ ghost timersArmed bool
 //@ ghost routerStopped bool
 //@ ghost clock int
 //@ ghost trigN int
@@ -130,7 +133,7 @@ package session
 
 //@ func (s *Session) send(msg messages.Message) (err error)
 //@   requires sessWF(s) && msg != nil && hdr(msg) != nil
-//@   requires[C07] @permitted everLogged || allowedBeforeLogon(msg)
+//@   requires[C07] @permitted everLogged || timersArmed || allowedBeforeLogon(msg)
 //@   modifies sentN, sentAt, sendFailed, clock, s.counter.*, gOut(s.counter), gIn(s.counter), hSeq(hdr(msg)), hSender(hdr(msg)), hTarget(hdr(msg)), hTime(hdr(msg))
 //@   call CurrentTime#1: witness sendT = ret
 //@   call GetNextSeqNum#1:
@@ -152,7 +155,7 @@ package session
 
 //@ func (s *Session) sendWithErrorCheck(msg messages.Message)
 //@   requires sessWF(s) && msg != nil && hdr(msg) != nil
-//@   requires[C07] @permitted everLogged || allowedBeforeLogon(msg)
+//@   requires[C07] @permitted everLogged || timersArmed || allowedBeforeLogon(msg)
 //@   modifies sentN, sentAt, sendFailed, clock, s.counter.*, gOut(s.counter), gIn(s.counter), hSeq(hdr(msg)), hSender(hdr(msg)), hTarget(hdr(msg)), hTime(hdr(msg))
 //@   ensures[C06,C14,C15,C16,C07,C10,C05] @sentorfailed (sentN == old(sentN) + 1 && sentAt == upd(old(sentAt), old(sentN), msg) && sendFailed == old(sendFailed) && hSender(hdr(msg)) == s.LogonSettings.SenderCompID && hTarget(hdr(msg)) == s.LogonSettings.TargetCompID) || (sentN == old(sentN) && sentAt == old(sentAt) && sendFailed)
 //@   ensures[C05] @numbers imp(!sendFailed, cOut(s.counter) == old(cOut(s.counter)) + 1) && imp(sentN == old(sentN) && !old(sendFailed), true)
@@ -237,8 +240,13 @@ package session
 //@ func (s *Session) start() (err error)
 //@   role inbound
 //@   requires sessWF(s)
-//@   modifies timersStarted
+//@   modifies timersStarted, timersArmed
 //@   epilogue timersStarted = timersStarted || err == nil
+//@   call NewTimer#1:
+//@     assert[C09] @silence arg0 == (s.LogonSettings.HeartBtInt + ite(s.LogonSettings.HeartBtInt / 20 >= 1, s.LogonSettings.HeartBtInt / 20, 1)) * 1000000000
+//@   call NewTimer#2:
+//@     assert[C08] @interval arg0 == s.LogonSettings.HeartBtInt * 1000000000
+//@     set timersArmed = timersArmed || ret1 == nil
 //@   ensures[C07,C06] imp(err == nil, timersStarted) && imp(err != nil, timersStarted == old(timersStarted))
 //@   ensures[C06,C07] s.state == old(s.state) && sentN == old(sentN) && sentAt == old(sentAt) && s.LogonSettings == old(s.LogonSettings)
 
@@ -377,8 +385,82 @@ package session
 //@ closure (*Session).start#inhook (msg []byte) (ok bool)
 //@   role inbound
 //@   anchor Refresh changeState
-//@   requires s != nil && s.eventHandler != nil
+//@   requires s != nil && s.eventHandler != nil && incomingMsgTimer != nil
 //@   modifies s.state, everLogged, trigN, trigAt, routerStopped, timersStarted, clock, utils.Timer.lastUpdate
 //@   ensures[C14,C09,C16] @continues ok
+//@   ensures[C09] @always old(clock) <= incomingMsgTimer.lastUpdate && incomingMsgTimer.lastUpdate <= clock
 //@   ensures[C14,C09] @probeanswered imp(old(s.state) == WaitingTestReqAnswer, s.state == SuccessfulLogged)
 //@   ensures[C16,C09] @otherwise imp(old(s.state) != WaitingTestReqAnswer, s.state == old(s.state))
+
+// ---- timer goroutines (C08, C09) ---------------------------------------------------------------
+// tkN: expiries of the timer the goroutine waits on; fireN: what it did about them.
+//@ ghost tkN int
+//@ ghost fireN int
+//@ spec timerWF(t *utils.Timer) bool = t != nil && t.ctx != nil && t.timeout > 0 && t.checkingTimeout > 0 && bgctx(ctxParent(t.ctx)) && ctxOf(t.cancel) == t.ctx
+
+// Every outbound message, of any type, restarts the heartbeat interval.
+//@ closure (*Session).start#outhook (msg simplefixgo.SendingMessage) (ok bool)
+//@   anchor outgoingMsgTimer
+//@   requires outgoingMsgTimer != nil
+//@   modifies clock, utils.Timer.lastUpdate
+//@   call Refresh#1:
+//@     assert[C08] @refreshed arg0 == outgoingMsgTimer && old(clock) <= outgoingMsgTimer.lastUpdate && outgoingMsgTimer.lastUpdate <= clock
+//@   ensures[C08] @continues ok
+//@   ensures[C08] @always old(clock) <= outgoingMsgTimer.lastUpdate && outgoingMsgTimer.lastUpdate <= clock
+
+// The heartbeat goroutine: whenever the interval has passed since the last outbound
+// message (the timer's last refresh) it sends a Heartbeat, not sooner, and no later
+// than one tenth of the interval plus scheduling slack after that; it does nothing else.
+//@ closure (*Session).start#heartbeat ()
+//@   anchor HeartbeatBuilder
+//@   callback pure
+//@   requires sessWF(s) && timerWF(outgoingMsgTimer) && !cancelled(outgoingMsgTimer.ctx)
+//@   requires[C07] timersArmed
+//@   modifies sentN, sentAt, sendFailed, clock, s.counter.*, gOut(s.counter), gIn(s.counter), outgoingMsgTimer.lastUpdate, tkN, fireN, cancelled(*)
+//@   call TakeTimeout#1:
+//@     assert[C08] @notearly clock >= outgoingMsgTimer.lastUpdate + outgoingMsgTimer.timeout
+//@     assert[C08] @notlate clock <= outgoingMsgTimer.lastUpdate + outgoingMsgTimer.timeout + outgoingMsgTimer.checkingTimeout + 4 * slack
+//@     set tkN = tkN + 1
+//@   call sendWithErrorCheck#1:
+//@     assert[C08] @heartbeat mrole(arg1) == 4 && mTestReqID(arg1) == ""
+//@     set fireN = fireN + 1
+//@   loop 1:
+//@     modifies outgoingMsgTimer.lastUpdate
+//@     invariant[C08] @alive timerWF(outgoingMsgTimer) && !cancelled(outgoingMsgTimer.ctx) && timersArmed
+//@     invariant[C08] @everyexpiry tkN - old(tkN) == fireN - old(fireN)
+
+// The probe goroutine: the first expiry of the silence timer sends a TestRequest and
+// starts waiting; an expiry while still waiting raises the disconnect event and ends.
+//@ closure (*Session).start#probe ()
+//@   anchor TestRequestBuilder
+//@   callback pure
+//@   requires sessWF(s) && timerWF(incomingMsgTimer) && !cancelled(incomingMsgTimer.ctx)
+//@   requires[C07] timersArmed
+//@   modifies sentN, sentAt, sendFailed, clock, s.counter.*, gOut(s.counter), gIn(s.counter), incomingMsgTimer.lastUpdate, tkN, fireN, s.state, everLogged, trigN, trigAt, routerStopped, timersStarted, cancelled(*)
+//@   call TakeTimeout#1:
+//@     assert[C09] @notearly clock >= incomingMsgTimer.lastUpdate + incomingMsgTimer.timeout
+//@     assert[C09] @notlate clock <= incomingMsgTimer.lastUpdate + incomingMsgTimer.timeout + incomingMsgTimer.checkingTimeout + 4 * slack
+//@     set tkN = tkN + 1
+//@   call changeState#1:
+//@     assert[C09] @disconnect arg1 == Disconnect && arg2 && sel(trigAt, trigN - 1) == utils.EventDisconnect
+//@     set fireN = fireN + 1
+//@   call Build#1:
+//@     assert[C09] @firstexpiry s.state != WaitingTestReqAnswer
+//@   call changeState#2:
+//@     assert[C09] @waiting arg1 == WaitingTestReqAnswer
+//@   call sendWithErrorCheck#1:
+//@     assert[C09] @probe mrole(arg1) == 5 && mTestReqID(arg1) == dec(testReqCounter + 1) && s.state == WaitingTestReqAnswer
+//@     set fireN = fireN + 1
+//@   loop 1:
+//@     modifies incomingMsgTimer.lastUpdate
+//@     invariant[C09] @alive timerWF(incomingMsgTimer) && !cancelled(incomingMsgTimer.ctx) && timersArmed && sessWF(s)
+//@     invariant[C09] @everyexpiry tkN - old(tkN) == fireN - old(fireN)
+
+// The disconnect event (raised by the probe goroutine) cancels the session and stops
+// the handler; Run registers this reaction before anything else can happen.
+//@ field Session.cancel: callback(pure)
+//@ closure (*Session).Run#disconnect () (ok bool)
+//@   anchor cancel
+//@   requires s != nil && s.Router != nil
+//@   modifies routerStopped, cancelled(*)
+//@   ensures[C09] @torndown ok && routerStopped && cancelled(ctxOf(s.cancel))
